@@ -18,16 +18,15 @@ Section Enc.
 
   Definition lst (ts vs : list tmpl) : result (list pdna) :=
     if length ts =? length vs then cat2 enc ts vs else Err E_VALUE.
-  Definition dict_f (kvs : list (str * tmpl)) (k : str) (x : tmpl) : result (list pdna) :=
-    with_key (fun t' => enc t' x) (Err E_VALUE) kvs k.
 
   Lemma enc_leaf : forall l v, enc (TLeaf l) v =
     match v with TLeaf l' => if leaf_eqb l l' then Ok [] else Err E_VALUE | _ => Err E_VALUE end.
   Proof. reflexivity. Qed.
   Lemma enc_tdict : forall kvs v, enc (TDict kvs) v =
     match v with
-    | TDict vs => if (length kvs =? length vs) && forallb (fun kv => has_key (fst kv) vs) kvs
-                  then enc_dict (dict_f kvs) vs else Err E_VALUE
+    | TDict vs => match enc_fields enc vs kvs with
+                  | Ok ds => if length kvs =? length vs then Ok ds else Err E_VALUE
+                  | Err e => Err e end
     | _ => Err E_VALUE end.
   Proof. reflexivity. Qed.
   Lemma enc_tobj : forall c kvs v, enc (TObj c kvs) v =
@@ -112,21 +111,14 @@ Section Enc.
     - inv H0. eauto.
   Qed.
 
-  Lemma with_key_err : forall kvs, Forall (fun kv => errs_ok (snd kv)) kvs -> forall k x e,
-    dict_f kvs k x = Err e -> catchable e = true.
+  Lemma enc_fields_err : forall vs kvs, Forall (fun kv => errs_ok (snd kv)) kvs -> forall e,
+    enc_fields enc vs kvs = Err e -> catchable e = true.
   Proof.
-    unfold dict_f. induction 1 as [|[k' t'] kvs Hc _ IH]; intros k x e H0; simpl in H0.
-    - inv H0; reflexivity.
-    - destruct (str_eqb k k'); eauto.
-  Qed.
-
-  Lemma enc_dict_err : forall (f : str -> tmpl -> result (list pdna)),
-    (forall k x e, f k x = Err e -> catchable e = true) -> forall vs e, enc_dict f vs = Err e -> catchable e = true.
-  Proof.
-    intros f Hf. induction vs as [|[k x] vs IH]; intros e H0; simpl in H0; try discriminate.
-    destruct (f k x) eqn:E.
-    - destruct (enc_dict f vs) eqn:E2; inv H0. eauto.
-    - inv H0. eauto.
+    intros vs. induction 1 as [|[k t'] kvs Hc _ IH]; intros e H0; simpl in H0; try discriminate.
+    destruct (lookup k vs) as [x|]; [|inv H0; reflexivity].
+    destruct (enc t' x) eqn:E.
+    - destruct (enc_fields enc vs kvs) eqn:E2; inv H0. eauto.
+    - inv H0. eapply Hc; eauto.
   Qed.
 
   Lemma lst_err : forall ts, Forall errs_ok ts -> forall vs e, lst ts vs = Err e -> catchable e = true.
@@ -141,8 +133,8 @@ Section Enc.
     - rewrite enc_leaf in H0. destruct v; try (inv H0; reflexivity). destruct (leaf_eqb l l0); inv H0; reflexivity.
     - assert (H' : Forall (fun kv => errs_ok (snd kv)) kvs) by (eapply Forall_mp; [exact H | apply okq_forall_kvs; exact Hok]).
       rewrite enc_tdict in H0. destruct v; try (inv H0; reflexivity).
-      destruct (_ && _); [|inv H0; reflexivity].
-      eapply enc_dict_err; eauto. apply with_key_err; auto.
+      destruct (enc_fields enc kvs0 kvs) eqn:E; [destruct (length kvs =? length kvs0); inv H0; reflexivity|].
+      inv H0. eapply enc_fields_err; eauto.
     - assert (H' : Forall (fun kv => errs_ok (snd kv)) kvs) by (eapply Forall_mp; [exact H | apply okq_forall_kvs; exact Hok]).
       rewrite enc_tobj in H0. destruct v; try (inv H0; reflexivity).
       destruct (_ && _); [|inv H0; reflexivity].
@@ -197,14 +189,6 @@ Section Enc.
     - destruct (str_eqb k k') eqn:E; auto. apply str_eqb_eq in E; subst.
       exfalso; apply H1. change k' with (fst (k', x)). apply in_map; auto.
   Qed.
-  Lemma enc_dict_all : forall (f : str -> tmpl -> result (list pdna)) vs ds, enc_dict f vs = Ok ds ->
-    forall k x, In (k, x) vs -> exists o, f k x = Ok o.
-  Proof.
-    induction vs as [|[k' y] vs IH]; simpl; intros ds H0 k x Hin; [contradiction|].
-    destruct (f k' y) eqn:E; try discriminate. destruct (enc_dict f vs) eqn:E2; try discriminate.
-    destruct Hin as [Heq|Hin]; [inv Heq; eauto | eauto].
-  Qed.
-
   Lemma all_P_Forall : forall A (P : A -> Prop) l, all_P P l <-> Forall P l.
   Proof. induction l; simpl; split; intros; auto. - destruct H; constructor; tauto. - inv H; tauto. Qed.
 
@@ -243,26 +227,20 @@ Section Enc.
         exists ((k, v') :: vs'); split; auto. simpl. rewrite Hk1, Hq1, Hq2; auto.
   Qed.
 
-  Lemma sound_dict : forall full vs, NoDup (map fst full) ->
-    (forall k x, In (k, x) vs -> exists o, dict_f full k x = Ok o) ->
-    forall l, incl l full -> Forall (fun kv => sound (snd kv)) l -> Forall (fun kv => wf_t (snd kv)) l ->
-      (forall kv, In kv l -> has_key (fst kv) vs = true) ->
+  Lemma sound_fields : forall vs l, Forall (fun kv => sound (snd kv)) l -> Forall (fun kv => wf_t (snd kv)) l ->
+    forall ds, enc_fields enc vs l = Ok ds ->
     exists ds', (forall (pf : str -> list ikey), forallb2 valid_p (flat_map (fun kv => pts w (pf (fst kv)) (snd kv)) l) ds' = true) /\
       forall rest, exists l', trav_kvs sdec l (ds' ++ rest) = Ok (l', rest) /\ length l' = length l /\
         forallb (fun kv => with_key (fun y => veq (snd kv) y) false vs (fst kv)) l' = true.
   Proof.
-    intros full vs ND Hall. induction l as [|[k t] l IH]; intros Hincl Hs Hwf Hkeys.
+    intros vs. induction l as [|[k t] l IH]; intros Hs Hwf ds H0.
     - exists []; split; auto. intros; exists []; auto.
     - apply Forall_cons_iff in Hs as [Hs1 Hs2]. apply Forall_cons_iff in Hwf as [Hw1 Hw2]. simpl in Hs1, Hw1.
-      assert (Hk : has_key k vs = true) by (apply (Hkeys (k, t)); left; auto).
-      unfold has_key in Hk. destruct (lookup k vs) as [x|] eqn:Lk; try discriminate.
-      destruct (Hall k x (lookup_In _ _ _ _ Lk)) as [o Ho].
-      unfold dict_f in Ho. rewrite with_key_lookup in Ho.
-      rewrite (lookup_NoDup _ k full t ND) in Ho by (apply Hincl; left; auto).
+      simpl in H0. destruct (lookup k vs) as [x|] eqn:Lk; try discriminate.
+      destruct (enc t x) as [o|] eqn:Ho; try discriminate.
+      destruct (enc_fields enc vs l) as [os|] eqn:E2; try discriminate.
       destruct (Hs1 Hw1 _ _ Ho) as (d1 & Hv1 & Hd1).
-      assert (Hi : incl l full) by (intros kv Hkv; apply Hincl; right; auto).
-      assert (Hk' : forall kv, In kv l -> has_key (fst kv) vs = true) by (intros kv Hkv; apply Hkeys; right; auto).
-      destruct (IH Hi Hs2 Hw2 Hk') as (d2 & Hv2 & Hd2).
+      destruct (IH Hs2 Hw2 _ eq_refl) as (d2 & Hv2 & Hd2).
       exists (d1 ++ d2); split.
       + intros; simpl; apply forallb2_app; auto.
       + intros rest. rewrite <- app_assoc, trav_kvs_cons.
@@ -324,10 +302,10 @@ Section Enc.
     - (* leaf *) rewrite enc_leaf in H0. destruct v; try discriminate. destruct (leaf_eqb l l0) eqn:E; inv H0.
       exists []; split; auto. intros rest; exists (TLeaf l); auto.
     - (* dict *) rewrite enc_tdict in H0. destruct v; try discriminate.
-      destruct (_ && _) eqn:C; try discriminate. apply andb_true_iff in C as [Clen Ckeys].
+      destruct (enc_fields enc kvs0 kvs) as [ds0|] eqn:E0; try discriminate.
+      destruct (length kvs =? length kvs0) eqn:Clen; inv H0.
       destruct Hwf as [ND Hw]. apply all_P_Forall in Hw.
-      destruct (sound_dict kvs kvs0 ND (enc_dict_all _ _ _ H0) kvs (incl_refl _) H Hw) as (ds' & Hv & Hd).
-      { intros kv Hkv. rewrite forallb_forall in Ckeys. auto. }
+      destruct (sound_fields kvs0 kvs H Hw _ E0) as (ds' & Hv & Hd).
       exists ds'; split; [intros p; simpl; apply (Hv (fun k => p ++ [KName k]))|]. intros rest. destruct (Hd rest) as (l' & Hl & Hlen & Hq').
       exists (TDict l'). rewrite sdec_dict, Hl. split; auto. simpl. rewrite Hlen, Clen, Hq'; auto.
     - (* object *) rewrite enc_tobj in H0. destruct v; try discriminate.
@@ -446,16 +424,24 @@ Section Enc.
     destruct (str_eqb k k') eqn:E; auto. destruct H; [subst; rewrite str_eqb_refl in E; discriminate | auto].
   Qed.
 
-  (* the dict version: the encoder walks the value's keys and looks the template's entry up *)
-  Lemma inv_dict : forall full, NoDup (map fst full) -> forall l, incl l full ->
+  Lemma trav_kvs_keys0 : forall (l : list (str * tmpl)) ds l' r, trav_kvs sdec l ds = Ok (l', r) -> map fst l' = map fst l.
+  Proof.
+    induction l as [|[k x] l IH]; intros ds l' r H.
+    - simpl in H. inv H. auto.
+    - rewrite trav_kvs_cons in H. destruct (sdec x ds) as [[v s1]|]; try discriminate.
+      destruct (trav_kvs sdec l s1) as [[vs s2]|] eqn:E; inv H. simpl. f_equal. eauto.
+  Qed.
+
+  (* the dict version: the encoder walks the template's keys and looks the value's entry up (in the whole decoded dict) *)
+  Lemma inv_dict : forall fullv, NoDup (map fst fullv) -> forall l,
     Forall (fun kv => inv_ok (snd kv)) l -> Forall (fun kv => wf_t (snd kv)) l -> Forall (fun kv => okq (snd kv)) l ->
     Forall (fun kv => distinguishable cdec w (snd kv)) l ->
     forall (pf : str -> list ikey) ds1 rest l' r,
     forallb2 valid_p (flat_map (fun kv => pts w (pf (fst kv)) (snd kv)) l) ds1 = true ->
-    trav_kvs sdec l (ds1 ++ rest) = Ok (l', r) ->
-    r = rest /\ enc_dict (dict_f full) l' = Ok ds1 /\ map fst l' = map fst l.
+    trav_kvs sdec l (ds1 ++ rest) = Ok (l', r) -> incl l' fullv ->
+    r = rest /\ enc_fields enc fullv l = Ok ds1.
   Proof.
-    intros full ND. induction l as [|[k t] l IH]; intros Hincl Hi Hwf Hok Hdi pf ds1 rest l' r Hv Hd.
+    intros fullv ND. induction l as [|[k t] l IH]; intros Hi Hwf Hok Hdi pf ds1 rest l' r Hv Hd Hincl.
     - destruct ds1; [|discriminate Hv]. simpl in Hd. inv Hd. auto.
     - apply Forall_cons_iff in Hi as [Hi1 Hi2]. apply Forall_cons_iff in Hwf as [Hw1 Hw2]. apply Forall_cons_iff in Hok as [Ho1 Ho2].
       apply Forall_cons_iff in Hdi as [Hd1 Hd2]. simpl in Hi1, Hw1, Ho1, Hd1.
@@ -464,11 +450,11 @@ Section Enc.
       destruct (sdec t (d1 ++ d2 ++ rest)) as [[v1 r1]|] eqn:E1; try discriminate.
       destruct (Hi1 Hw1 Ho1 Hd1 _ _ _ _ _ H1 E1) as [-> He1].
       destruct (trav_kvs sdec l (d2 ++ rest)) as [[vs2 r2]|] eqn:E2; try discriminate. inv Hd.
-      assert (Hincl' : incl l full) by (intros kv Hkv; apply Hincl; right; auto).
-      destruct (IH Hincl' Hi2 Hw2 Ho2 Hd2 _ _ _ _ _ H2 E2) as (-> & He2 & Hl).
-      simpl. unfold dict_f at 1. rewrite with_key_lookup.
-      rewrite (lookup_NoDup _ k full t ND) by (apply Hincl; left; auto).
-      rewrite He1, He2, Hl. auto.
+      assert (Hincl' : incl vs2 fullv) by (intros kv Hkv; apply Hincl; right; auto).
+      destruct (IH Hi2 Hw2 Ho2 Hd2 _ _ _ _ _ H2 E2 Hincl') as (-> & He2).
+      split; auto. simpl.
+      rewrite (lookup_NoDup _ k fullv v1 ND) by (apply Hincl; left; auto).
+      rewrite He1, He2. auto.
   Qed.
 
   Lemma first_match_at : forall v cands n c cc sub,
@@ -537,12 +523,12 @@ Section Enc.
     - (* dict *) destruct Hwf as [ND Hw]. apply all_P_Forall in Hw. simpl in Hdi. apply all_P_Forall in Hdi.
       apply okq_forall_kvs in Hok. simpl in Hv. rewrite sdec_dict in Hd.
       destruct (trav_kvs sdec kvs (ds1 ++ rest)) as [[kvs' r']|] eqn:E; inv Hd.
-      destruct (inv_dict kvs ND kvs (incl_refl _) H Hw Hok Hdi (fun k => p ++ [KName k]) _ _ _ _ Hv E) as (-> & He & Hk).
-      split; auto. rewrite enc_tdict.
-      replace (length kvs =? length kvs') with true.
-      2:{ symmetry. apply Nat.eqb_eq. rewrite <- (map_length fst kvs), <- (map_length fst kvs'), Hk. auto. }
-      replace (forallb (fun kv => has_key (fst kv) kvs') kvs) with true; auto.
-      symmetry. apply forallb_forall. intros kv Hkv. apply has_key_in. rewrite Hk. apply in_map; auto.
+      pose proof (trav_kvs_keys0 _ _ _ _ E) as Hk.
+      assert (ND' : NoDup (map fst kvs')) by (rewrite Hk; exact ND).
+      destruct (inv_dict kvs' ND' kvs H Hw Hok Hdi (fun k => p ++ [KName k]) _ _ _ _ Hv E (incl_refl _)) as (-> & He).
+      split; auto. rewrite enc_tdict, He.
+      replace (length kvs =? length kvs') with true; auto.
+      symmetry. apply Nat.eqb_eq. rewrite <- (map_length fst kvs), <- (map_length fst kvs'), Hk. auto.
     - (* object *) destruct Hwf as [ND Hw]. apply all_P_Forall in Hw. simpl in Hdi. apply all_P_Forall in Hdi.
       apply okq_forall_kvs in Hok. simpl in Hv. rewrite sdec_obj in Hd.
       destruct (trav_kvs sdec kvs (ds1 ++ rest)) as [[kvs' r']|] eqn:E; inv Hd.
